@@ -173,3 +173,47 @@ Lemma same_histories_patched_l :
   map fst (snd (run patched stale_defs 10 stale_ops (init_world stale_defs [])))
   = [Ret (VInt 5); Ret VNone; Exc ERuntime; Exc EStopStream].
 Proof. vm_compute. split; reflexivity. Qed.
+
+(* ---- which routine a wait registers: the thread player = the outermost routine on the parent
+   chain of the current thread (TimeThread.thread_player with no override) ------------------- *)
+Inductive anc (w : world) : nat -> nat -> Prop :=   (* anc w p t: p is t or an ancestor of t *)
+| anc_refl : forall t, anc w t t
+| anc_step : forall t q x p, nth_error (rts w) t = Some x -> parent x = Some (R q) -> anc w p q -> anc w p t.
+
+Lemma tplayer_spec : forall n w t p, tplayer n w t = Some p ->
+  anc w p t /\ (forall x q, nth_error (rts w) p = Some x -> parent x <> Some (R q)).
+Proof.
+  induction n as [| n IH]; intros w t p H; simpl in H; [discriminate |].
+  destruct (nth_error (rts w) t) as [x |] eqn:E.
+  - destruct (parent x) as [[| q] |] eqn:PA.
+    + inversion H; subst p. split; [apply anc_refl |]. intros y q Y. rewrite E in Y. inversion Y; subst y. congruence.
+    + destruct (IH w q p H) as [A B]. split; [eapply anc_step; eauto | exact B].
+    + inversion H; subst p. split; [apply anc_refl |]. intros y q Y. rewrite E in Y. inversion Y; subst y. congruence.
+  - inversion H; subst p. split; [apply anc_refl |]. intros y q Y. congruence.
+Qed.
+
+Lemma wait_registers_thread_player_l : forall c w x t p,
+  nth_error (cells w) c = Some x -> cur w = Some (R t) -> cell_test x = false ->
+  tplayer (S (length (rts w))) w t = Some p ->
+  fst (fst (do_wait c w)) = set_cell c (mkCell (ckind_of x) (waiting x ++ [p])) w /\
+  snd (fst (do_wait c w)) = Some VHang /\
+  anc w p t /\ (forall y q, nth_error (rts w) p = Some y -> parent y <> Some (R q)).
+Proof.
+  intros c w x t p E C T TP. unfold do_wait. rewrite E, C, T, TP. unfold cell_wait. rewrite T.
+  split; [reflexivity | split; [reflexivity | apply tplayer_spec with (n := S (length (rts w))); exact TP]].
+Qed.
+
+(* a wait three levels below the routine woken by the clock registers that routine, not a relay *)
+Definition chain_defs : list rdef :=
+  [mkDef Gen false [ARelay 1 VNone; ALog (VStr 9); AYield (VStr 0)];
+   mkDef Gen false [ARelay 2 VNone; AYield (VStr 1)];
+   mkDef Gen false [ARelay 3 VNone; AYield (VStr 2)];
+   mkDef Gen false [AWait 0; AYield (VStr 3)]].
+
+Lemma chain_example_l :
+  let r := run patched chain_defs 10 [OCall (CPlay 0); OTick; OCall (CUnhang 0); OTick; OTick]
+               (init_world chain_defs [CCond false]) in
+  map (fun p => (fst p, map waiting (cells (snd p)), queue (snd p))) (snd r)
+  = [(Ret VNone, [[]], [(0%Z, 0%nat)]); (Ret VHang, [[0%nat]], []); (Ret VNone, [[]], [(0%Z, 0%nat)]);
+     (Ret (VStr 0), [[]], []); (Ret VNone, [[]], [])].
+Proof. vm_compute. reflexivity. Qed.
